@@ -127,11 +127,24 @@ pub fn eval(case: &Case) -> Verdict {
             Ok(_) => Verdict::Pass,
             Err(m) => Verdict::Fail(m),
         },
+        // a very long blank run is stored by its length, not as megabytes of text
+        "blank_run" => match check_picture(&blank_run_picture(case.i[0] as usize, case.i[1] as u8)) {
+            Ok(_) => Verdict::Pass,
+            Err(m) => Verdict::Fail(m.chars().take(300).chain(" [...] ".chars()).chain(m.chars().rev().take(200).collect::<Vec<_>>().into_iter().rev()).collect()),
+        },
         "picture_names" => match check_picture_names(&case.s[0]) {
             Ok(_) => Verdict::Pass,
             Err(m) => Verdict::Fail(m),
         },
         k => Verdict::Fail(format!("unknown case kind {k}")),
+    }
+}
+
+pub fn blank_run_picture(n: usize, shape: u8) -> String {
+    match shape {
+        0 => " ".repeat(n),
+        1 => format!("DD{}MM", " ".repeat(n)),
+        _ => format!("YYYY{}Mon", " ".repeat(n)),
     }
 }
 
@@ -275,16 +288,28 @@ pub fn run(ctx: &Ctx) -> (Stats, Report) {
             }
         }
     }
-    // blank runs whose length sits at 2^k (k = 8..=20): the widths a narrower counter would have
-    for k in 8..=20u32 {
-        for n in [(1usize << k) - 1, 1 << k, (1 << k) + 1] {
-            for pic in [" ".repeat(n), format!("DD{}MM", " ".repeat(n))] {
+    // blank runs whose length sits at 2^k: the widths a narrower counter would have (k = 8..=20),
+    // and the sizes at which a length cap or a 32-bit size computation would bite (k up to 25, 27 in
+    // the thorough tier: pictures of up to 128 MiB)
+    let kmax = if ctx.thorough { 27 } else { 25 };
+    for k in 8..=kmax {
+        let ns: Vec<usize> = if k <= 20 || ctx.thorough { vec![(1usize << k) - 1, 1 << k, (1 << k) + 1] } else { vec![(1 << k) + 1] };
+        for n in ns {
+            for shape in 0..3u8 {
+                if shape == 2 && k <= 20 {
+                    continue;
+                }
+                let pic = blank_run_picture(n, shape);
                 st.evaluations += 1;
                 st.fps.push(hash_bytes(19, pic.as_bytes()));
                 st.class("blank-run-at-binary-boundary-length");
+                if k > 20 {
+                    st.class("blank-run-longer-than-2^20");
+                }
                 if let Err(m) = check_picture(&pic) {
-                    let short = format!("{}<{} blanks>{}", if pic.starts_with('D') { "DD" } else { "" }, n, if pic.ends_with('M') { "MM" } else { "" });
-                    st.fail(n as u64, Case::new(P, "picture", vec![], vec![pic]), format!("{m} [picture: {short}]").chars().take(600).collect());
+                    let short = format!("{}<{} blanks>{}", ["", "DD", "YYYY"][shape as usize], n, ["", "MM", "Mon"][shape as usize]);
+                    let m: String = if m.len() > 600 { m.chars().take(300).collect() } else { m };
+                    st.fail(n as u64, Case::new(P, "blank_run", vec![n as i128, shape as i128], vec![]), format!("{m} [picture: {short}]"));
                 }
             }
         }
@@ -433,7 +458,7 @@ pub fn run(ctx: &Ctx) -> (Stats, Report) {
     st.section("random_token_sequences", &mut mark);
 
     let rep = Report {
-        rule: format!("E1: every string of length 0..={maxlen} over the {}-symbol picture alphabet (exhaustive); near-miss spellings alone and embedded; 14 invisible / ignorable characters (byte order mark, zero-width and non-breaking spaces, separators, control whitespace) at every token boundary of valid pictures; blank runs of every length 1..=700 (alone, between number tokens, and next to name tokens for every month / weekday name); 30..=42 repetitions of every documented token spelling (and of token + separator pairs) around the 36-token limit. E2: proptest token sequences of 0..=40 tokens (34..=38 over-sampled) with random letter case, blank runs up to 600 and an optional near-miss spelling spliced in. Every rendering goes through both Formatter::format and T::format + write!, and the one-shot Timestamp::parse wrapper must not reject an accepted picture as a format error. Oracle: reference longest-match tokenizer: try_new is Ok iff it accepts (<= 36 tokens), rejection must be Error::InvalidFormat, from Formatter::try_new and from the one-shot parse / format wrappers of all six types; for accepted pictures the text formatted for the probe 2003-04-09 17:28:56.123456 (every field distinct) must equal the reference rendering of the reference token list (identifies token identity, name case and exact blank-run length); every letter-case pattern of MONTH / MON / DAY / DY / AM / PM / A.M. / P.M. (alone, doubled, embedded) is formatted for 19 probes covering every month name, every weekday name and both meridians. Run under both build profiles. Non-trivial = accepted by the reference, or rejected but one end-deletion away from an accepted picture, or containing a near-miss spelling.", ALPHABET.len()),
+        rule: format!("E1: every string of length 0..={maxlen} over the {}-symbol picture alphabet (exhaustive); near-miss spellings alone and embedded; 14 invisible / ignorable characters (byte order mark, zero-width and non-breaking spaces, separators, control whitespace) at every token boundary of valid pictures; blank runs of every length 1..=700 (alone, between number tokens, and next to name tokens for every month / weekday name) and of length 2^k-1, 2^k, 2^k+1 for k = 8..=20, 2^k+1 up to 2^25 (all three up to 2^27 in the thorough tier: pictures of 128 MiB); 30..=42 repetitions of every documented token spelling (and of token + separator pairs) around the 36-token limit. E2: proptest token sequences of 0..=40 tokens (34..=38 over-sampled) with random letter case, blank runs up to 600 and an optional near-miss spelling spliced in. Every rendering goes through both Formatter::format and T::format + write!, and the one-shot Timestamp::parse wrapper must not reject an accepted picture as a format error. Oracle: reference longest-match tokenizer: try_new is Ok iff it accepts (<= 36 tokens), rejection must be Error::InvalidFormat, from Formatter::try_new and from the one-shot parse / format wrappers of all six types; for accepted pictures the text formatted for the probe 2003-04-09 17:28:56.123456 (every field distinct) must equal the reference rendering of the reference token list (identifies token identity, name case and exact blank-run length); every letter-case pattern of MONTH / MON / DAY / DY / AM / PM / A.M. / P.M. (alone, doubled, embedded) is formatted for 19 probes covering every month name, every weekday name and both meridians. Run under both build profiles. Non-trivial = accepted by the reference, or rejected but one end-deletion away from an accepted picture, or containing a near-miss spelling.", ALPHABET.len()),
         assumptions: vec!["a name token with lower-case first and upper-case second letter, and a mixed-case meridian token, have no style fixed by the statement: compared ignoring case".into()],
         exhaustive: false,
         extra: Default::default(),
